@@ -279,7 +279,7 @@ theorem WFB_StrictDict : ∀ (b : B), WFB b → StrictDict b
     simp only [StrictDict]
     refine ⟨WFB_StrictDict vals (WFB_dictionary h).2.1, ?_⟩
     simp only [WFB] at h
-    exact h.2.2.2.2
+    exact h.2.2.2.2.1
   | .union _ fs _ _ cur, h => by
     simp only [StrictDict]; exact WFBs_StrictDictL fs (WFU_WFBs fs cur (WFB_union h).2.1)
 theorem WFBs_StrictDictL : ∀ (fs : BL), WFBs fs → StrictDictL fs
